@@ -17,6 +17,7 @@ PROPERTY_PROFILE = {
     "C05": "cursor",
     "C06": "cursor",
     "C07": "fail",
+    "C09": "meta",
     "C12": "merge",
     "C13": "txn",
     "C14": "connect",
